@@ -166,6 +166,10 @@ class Check:
         os.makedirs(os.path.join(VERIF, "evidence"), exist_ok=True)
         with open(os.path.join(VERIF, "evidence", f"{self.pid}.json"), "w") as fh:
             json.dump(ev, fh, indent=1, default=str, ensure_ascii=False)
+        # evidence/<id>.json holds the last run of either tier; a copy per tier is kept next to it
+        os.makedirs(os.path.join(VERIF, "evidence_by_tier"), exist_ok=True)
+        with open(os.path.join(VERIF, "evidence_by_tier", f"{self.pid}.{self.tier}.json"), "w") as fh:
+            json.dump(ev, fh, indent=1, default=str, ensure_ascii=False)
         print(f"[{self.pid}/{self.tier}] obligations={self.obligations} discharged={self.discharged} "
               f"inconclusive={len(self.inconclusive)} queries={self.queries} "
               f"solver={self.solver_time:.1f}s wall={wall:.1f}s violations={len(self.violations)} "
